@@ -363,6 +363,49 @@ func (x *executor) dirTag(d *ast.Directive) string {
 func (x *executor) field(obj *ast.Definition, objKey string, fd *ast.FieldDefinition, fields []*ast.Field, fpath string) (*strictjson.Value, bool) {
 	// schema directives on the field definition wrap the resolver (docs: "next" is the next directive
 	// in the chain or the resolver). Plans put at most one non-passing directive on an invocation.
+	if !x.SkipDirectives && len(fields) > 0 {
+		// executable directives of the user (location FIELD) applied to this occurrence wrap
+		// everything else about the field: schema directives and the resolver run inside them
+		for _, d := range fields[0].Directives {
+			def := x.Schema.Directives[d.Name]
+			if builtinDirective(d.Name) || def == nil {
+				continue
+			}
+			isField := false
+			for _, l := range def.Locations {
+				if l == ast.LocationField {
+					isField = true
+				}
+			}
+			if !isField {
+				continue
+			}
+			key := fpath + "@" + goDirName(d.Name) + ":" + x.dirTag(d)
+			x.res.Dirs = append(x.res.Dirs, key)
+			if len(x.effectiveDirs(fd)) > 0 {
+				if x.res.DirsMulti == nil {
+					x.res.DirsMulti = map[string]bool{}
+				}
+				x.res.DirsMulti[key] = true
+			}
+			switch o := x.Plan.Dir("D:" + key); o.Kind {
+			case plan.Error:
+				x.addErr(fpath, "directive", o.Msg)
+				x.res.DirBlocked++
+				return null(), true
+			case plan.Panic:
+				x.addErr(fpath, "panic", o.Msg)
+				x.res.DirBlocked++
+				return null(), true
+			case plan.DirNull:
+				x.res.DirBlocked++
+				if fd.Type.NonNull {
+					x.addErr(fpath, "null", "")
+				}
+				return null(), true
+			}
+		}
+	}
 	if !x.SkipDirectives {
 		eff := x.effectiveDirs(fd)
 		for _, d := range eff {
